@@ -12,7 +12,7 @@ BatchC(e) == [t |-> "batch", era |-> e.c.era, members |-> e.c.members, order |->
 BatchO(e) == [alive |-> e.alive, flushes |-> Len(e.flushes),
               flushAfter |-> IF Len(e.flushes) > 0 THEN e.flushes[1].after ELSE 0,
               flushSize |-> IF Len(e.flushes) > 0 THEN Len(e.flushes[1].ids) ELSE 0,
-              singles |-> e.singles, premature |-> e.premature, panic |-> e.panic]
+              singles |-> e.singles, premature |-> e.premature, panic |-> e.panic, reuseOk |-> e.reuseOk, handled |-> e.handled]
 
 CheckAll(cl, pre) == \A k \in DOMAIN cl : Check(l, pre \o k, cl[k])
 
